@@ -499,8 +499,7 @@ def key_corpus(rng):
             ("decodes-14", base64.b64encode(bytes(rng.getrandbits(8) for _ in range(14))).decode()),
             ("decodes-32", base64.b64encode(bytes(rng.getrandbits(8) for _ in range(32))).decode()),
             ("leading-eq-2", "==" + a(22)), ("leading-eq-1", "=" + a(21) + "=="), ("only-eq", "=" * 24), ("only-junk", "-" * 22 + "=="),
-            ("quoted", '"' + k()[:20] + '"=='), ("quoted-whole", '"' + k() + '"'), ("hex-16", bytes(rng.getrandbits(8) for _ in range(16)).hex()[:22] + "=="),
-            ("hex-32", bytes(rng.getrandbits(8) for _ in range(16)).hex()), ("percent", a(10) + "%3D" + a(9) + "=="), ("comma", a(11) + "," + a(10) + "=="),
+            ("quoted", '"' + k()[:20] + '"=='), ("quoted-whole", '"' + k() + '"'), ("hex-32", bytes(rng.getrandbits(8) for _ in range(16)).hex()), ("percent", a(10) + "%3D" + a(9) + "=="), ("comma", a(11) + "," + a(10) + "=="),
             ("semicolon-param", a(15) + ";q=1" + a(3) + "==")]
     return out
 
